@@ -389,11 +389,12 @@ func c09SeriesSig(ts map[uint32]string) string {
 }
 
 // input-shape class used as the witness class of a deviation: exactly the complement of the model's
-// LabelSafe guard (',' or '{' in the metric name or a label value, ',' ':' '{' in a label name)
+// LabelSafe guard (',' or '{' in the metric name, ',' in a label value, ',' ':' '{' in a label name; a '{' in a label
+// value is inside the guard since the repair c09-14 of ExtractMetricNameFromGroupID)
 func c09Shape(op *c09Op) string {
 	for _, s := range op.series {
 		for _, kv := range s.labels {
-			if strings.ContainsAny(kv[1], ",{") || strings.ContainsAny(kv[0], ",:{") {
+			if strings.ContainsAny(kv[1], ",") || strings.ContainsAny(kv[0], ",:{") {
 				return "promql-group/value-contains-separator"
 			}
 		}
@@ -421,6 +422,14 @@ func c09RepairedShapes(op *c09Op) []string {
 		}
 		if strings.Contains(op.name, ":") && len(op.fields) > 0 {
 			tags = append(tags, "shape-metric-name-contains-colon")
+		}
+	}
+	for _, s := range op.series {
+		for _, kv := range s.labels {
+			if strings.Contains(kv[1], "{") {
+				tags = append(tags, "shape-brace-in-label-value")
+				return tags
+			}
 		}
 	}
 	return tags
